@@ -35,6 +35,9 @@ ALLOWED_EXT_PREFIX = ("logging.",)
 ALLOWED_UNKNOWN_ATTRS = {
     "get", "decode", "startswith", "endswith", "split", "items", "tobytes", "upper", "strip", "partition", "group", "groups", "match", "append",
     "join", "format", "keys", "values", "lower", "encode",
+    # methods of the builtin containers / strings (on an unresolved receiver these names are taken to be container operations)
+    "discard", "add", "remove", "pop", "update", "extend", "copy", "clear", "setdefault", "insert", "sort", "index", "count", "find", "replace",
+    "rstrip", "lstrip", "rsplit", "splitlines", "rpartition", "isdigit", "union", "intersection", "difference", "issubset", "issuperset",
 }
 ALLOWED_CTORS_PREFIX = ("Pyro5.errors.",)
 DANGEROUS = ("builtins.__import__", "builtins.eval", "builtins.exec", "builtins.compile", "builtins.open", "importlib.", "os.", "subprocess.", "socket.",
